@@ -261,3 +261,7 @@ _add5("C20", "In-string macro expansion is bounded: after a value is substituted
 for _id in list(CLAIMED):
     tech, text, note, ref = CLAIMED[_id]
     CLAIMED[_id] = (tech, text, note + "; rules are form-agnostic (named booleans, if/switch, loop forms, extracted helpers, renamed unexported functions and fields – DESIGN.md §R.7) and measured against a corpus of 61 behaviour-preserving refactorings (60 quiet) (functions the reference tree did not have are read as part of their callers – §R.10) (refactorings/, refacallw.sh)", ref)
+# ---- ninth round (DESIGN.md §R.17): C08 claimed for its structural part
+claim("C08", "ordering / must-pass and error-refinement queries over go/cfg paths of the DKIM signer's feeding sequence and of smtpconn Data/LMTPData; writer/reader agreement rules (configuration directive → option field, key table normaliser, PEM type ↔ parser, newkey_algo ↔ generator) over the type-checked AST; parameter pass-through rules on every Data call site; edge-removal world query (verification error non-nil) in check.dkim",
+      "Structural part only – NOT whether a given message verifies (canonicalisation, hashing and signature arithmetic are go-msgauth's, the serialisers go-message's and go-smtp's; deciding that needs execution over generated messages and is outside static analysis). Decided on every run, each a necessary condition of the statement: (R1) in modify.dkim RewriteBody the signer created by dkim.NewSigner receives the header parameter and then an unbounded copy of body.Open() of the body parameter, header before body, is closed with its error read before Signature() is taken, the signature is added with AddRaw to that same header on every successful path that created a signer, nothing else is added to or removed from the header after its field list or bytes went to the signer, and no failed step is followed by success or by a signature; (R2) HeaderCanonicalization / BodyCanonicalization / Hash are read from the very fields the directives header_canon / body_canon / hash store into, every value those directives admit (defaults included) is one go-msgauth has a canonicalizer for resp. one the hash table maps (sha256 → crypto.SHA256), h= is computed from the header that is signed, i= is '@' + the variable of d=, s= is the configured selector or its A-label form, and the key is looked up for the domain of d= under the same normaliser Init stores the keys under; (R3) fieldsToSign lists a configured field once per instance in the header (loop over FieldsByKey of the element), an over-signed one exactly once more, a plainly signed one never more, filters duplicates with the key expression it records, and returns the list it built; (R4) the generated private key is the one marshalled into the key file, published (its Public() half, base64.StdEncoding) and returned; rsa2048/rsa4096/ed25519 each have the generator of that kind and size and carry the k= tag DKIM defines; the PEM type written is read back with the x509 parser matching the marshaller; (R5) smtpconn Data and LMTPData write the header parameter, then an unbounded copy of the body parameter, close the data writer with its error read, and never report success after a failed step; (R6) every call of Data / LMTPData in the server passes the header parameter of the function it stands in, unmodified, and the body parameter or body.Open() of it; (R7) check.dkim verifies io.MultiReader(serialised header parameter, body.Open()) and in the world 'verification error non-nil' neither the good-signature flag nor the value pass is reachable; (R8 = C10.R3, C10.R3f) the queue stores, reloads and hands on header and body unmodified. Plus the discipline rules E1–E11 and the reference inventory E5/E5b/E6 on every function of internal/modify/dkim, internal/check/dkim and internal/smtpconn.",
+      "trusts go/types, go/cfg; go-msgauth, go-message and go-smtp are judged only through their interface use (A2); the order of modifiers in a configuration is not visible", "DESIGN.md §3 C08 (as revised in §R.17), §4")
